@@ -30,6 +30,12 @@ def main():
         return mod.run(a.tier, seed)
     except Exception:
         traceback.print_exc()
+        import common
+        if common.PRIMARY and common.PRIMARY[0].violations and not a.replay:
+            # violations established before the machinery broke stand on their own replay files
+            print("MACHINERY-FAILURE property=%s in a later phase; reporting the violations found before it" % a.pid)
+            common.PRIMARY[0].assumptions.append("run cut short by a machinery failure in a later phase")
+            return common.PRIMARY[0].finish()
         print("MACHINERY-FAILURE property=%s (not a violation)" % a.pid)
         return 2
 
